@@ -129,12 +129,20 @@ def after_state_calls(ctx, base):
                 ops += ["layer %d %d" % (gen.alpha_bits(rng), 3), scene.draw_op(rng, W, H, dict(sources=["solid", "image"])), "poplayer"]
             elif c < 0.8:
                 ops.append("fill P 0 0  solid ffffffff 3 %d 1" % FB(1.0))          # an empty path
-            else:
+            elif c < 0.9:
                 ops += ["clippath " + scene.rand_path(rng, W, H, 0.2), "popclip"]
+            else:
+                # a clip path that keeps no edge: empty, or wholly beside / below the surface; either winding rule
+                far = rng.choice([(float(W + 5), 0.0), (0.0, float(H + 7)), (-50.0, 0.0)])
+                pth = rng.choice(["P %d 0 " % rng.randrange(2),
+                                  "P %d 4 M %s L %s L %s Z" % (rng.randrange(2), scene.fpt(far[0] + 1, far[1] + 1), scene.fpt(far[0] + 4, far[1] + 1), scene.fpt(far[0] + 2, far[1] + 5))])
+                if t != scene.IDENT:
+                    ops.append("xf " + scene.xf_tokens(scene.IDENT))
+                ops += ["clippath " + pth, "popclip", "xf " + scene.xf_tokens(t)]
         if clip and rng.random() < 0.5:
             ops.append("popclip")
         for _ in range(rng.randrange(1, 3)):
-            ops.append(scene.draw_op(rng, W, H, dict(sources=["image", "linearc", "image", "radialc"], draw_kinds=["fill", "fillrect", "fillrect", "stroke"])))
+            ops.append(scene.draw_op(rng, W, H, dict(sources=["image", "linearc", "image", "radialc", "solid"], draw_kinds=["fill", "fill", "fillrect", "fillrect", "stroke"], curves=0.1)))
         out.append("scene %d %d %d I %s ; %s" % (base + j, W, H, " ".join(map(gen.hexpx, px)), " ; ".join(ops)))
     return out
 
